@@ -321,6 +321,7 @@ func stageFault(spec *stageSpec, id, name, phase, md, outFile string, result *st
 	case "missing_key":
 		*result = "{}"
 	case "wrong_type":
-		*result = strings.Replace(*result, ":", ":[[\"x\"]],\"zz\":", 1)
+		// a value no declared type of the generated programs accepts
+		*result = strings.Replace(*result, ":", ":[[[[[true]]]]],\"zz\":", 1)
 	}
 }
